@@ -51,9 +51,12 @@ func (w *World) AddDep(p Pkg) error {
 
 // AddSrc writes a source package under src/<dirname>.
 func (w *World) AddSrc(s *SrcPkg, dirname string) error {
-	if s.SubDir != "" {
-		dirname += "/" + s.SubDir
+	// like real packages, the directory is called like the package
+	sub := s.SubDir
+	if sub == "" {
+		sub = s.Name
 	}
+	dirname += "/" + sub
 	s.Dir = filepath.Join(w.Dir, "src", filepath.FromSlash(dirname))
 	s.Path = WorldMod + "/src/" + dirname
 	for _, p := range s.Pkgs {
